@@ -555,3 +555,17 @@ Proof.
   split; [cbn [length ex_ops]; lia|].
   vm_compute. repeat split.
 Qed.
+
+(* 12. NOT a theorem of the code: the cumulative and the sampling collector keep the first event object they were
+       given as their accumulator, so a caller who writes to that object and hands it over again (one *Performance
+       re-used in a loop) writes over the running totals. Model/EventsAlias.v adds the caller's write to the heap
+       model; three events of one unit each come out as 1, 2, 2 (known finding C14-caller-write). *)
+From FV.Model Require Import EventsAlias.
+Example C14_caller_write_refuted :
+  let p := mkPerf 1000 0 1 10 0 0 7 7 0 0 false in
+  let '(s1, o1) := Events.step KCumulative Events.init (EvNew p) in
+  let '(s2, o2) := step_write KCumulative s1 0 p in
+  let '(s3, o3) := step_write KCumulative s2 0 p in
+  map p_n (written_of [o1; o2; o3]) = [1; 2; 2] /\ map p_n (expected_cumulative [p; p; p]) = [1; 2; 3] /\
+  c14_ok_cumulative [p; p; p] (written_of [o1; o2; o3]) = false.
+Proof. vm_compute. repeat split. Qed.
